@@ -2,6 +2,7 @@ import ScVerif.Base.Line
 import ScVerif.C05.Codec
 import ScVerif.C05.Opts
 import ScVerif.C05.Race
+import ScVerif.C05.Icpt
 import ScVerif.C06.Get
 /-!
 Driver handler shared by driverC05 and driverC06 (stateful: the state is the schema sent by the
@@ -17,6 +18,9 @@ harness in a `schema` line, taken from the real descriptors through protoreflect
   merge <ty> <W> <M> <R> <dst> <src>                -> <dst'> <src'> | panic
   set <ty> <resW> <moreW> <all:0|1> <M> <R> <stored> <src>
                                                     -> err:<code> | panic | <stored'> <src'>
+  iset <ty> <resW> <M> <stored> <src> <bkeys> <akeys>
+                                                    -> err:<code> | panic | <stored'>   (delta interceptors on the
+                                                       integer fields named, `_` = none: InterceptBefore / InterceptAfter)
   wseq <ty> <ropts> <stored> <steps>                -> <outcome> { " | " <outcome> } | config-panic
        ropts := '_' | ropt {';' ropt}     ropt := 'F'<mask> | 'P'<mask>      (WithWritableFields / WithWritablePaths)
        steps := step {'|' step}           step := wopts '@' ['+'] <src>      ('+': Collection.Add of a new item)
@@ -82,6 +86,13 @@ def parseStep (s : String) : Option Step :=
     | some opts, some src => some ⟨opts, src, fresh⟩
     | _, _ => none
   | _ => none
+
+/-- The fields a delta interceptor adds on: `_` = no interceptor, else names separated by commas. -/
+def parseKeys (s : String) : Option (Option (List Name)) :=
+  if s = "_" then some none
+  else
+    let ks := s.splitOn ","
+    if ks.all (fun k => !k.isEmpty && k.all (fun c => c.isAlphanum || c = '_')) then some (some ks) else none
 
 def showSetOut : SetOut → String
   | .err c => "err:" ++ c.show
@@ -154,6 +165,15 @@ def handleS (S : Schema) (toks : List String) : Schema × String :=
       let u := fieldUpdater rw (moreWritable mw) all m r
       (S, showSetOut (valueSet S ty u d s))
     | _, _, _, _, _, _, _, _ => bad
+  | ["iset", ty, rw, m, d, s, bi, ai] =>
+    -- one Value.Set / Collection.Update with delta interceptors (integer fields) before / after the merge
+    match ty.toNat?, parseMask rw, parseMask m, parseMessage d, parseMessage s, parseKeys bi, parseKeys ai with
+    | some ty, some rw, some m, some d, some s, some bi, some ai =>
+      let u := fieldUpdater rw none false m none
+      match valueSetI S ty u (bi.map deltaIcpt) (ai.map deltaIcpt) d s with
+      | .ok st _ => (S, showMsg st)
+      | o => (S, showSetOut o)
+    | _, _, _, _, _, _, _ => bad
   | ["wseq", ty, ro, d, steps] =>
     match ty.toNat?, parseList parseROpt ro, parseMessage d, (steps.splitOn "|").mapM parseStep with
     | some ty, some ro, some d, some steps =>
